@@ -128,3 +128,12 @@ func StorePointer(a *unsafe.Pointer, v unsafe.Pointer) {
 	pt("StorePointer", a)
 	atomic.StorePointer(a, v)
 }
+
+// Peek methods read the current value without a scheduling point (harness oracles only).
+func (b *Bool) Peek() bool     { return b.v.Load() }
+func (b *Int32) Peek() int32   { return b.v.Load() }
+func (b *Int64) Peek() int64   { return b.v.Load() }
+func (b *Uint32) Peek() uint32 { return b.v.Load() }
+func (b *Uint64) Peek() uint64 { return b.v.Load() }
+func (b *Value) Peek() any     { return b.v.Load() }
+func (b *Pointer[T]) Peek() *T { return b.v.Load() }
